@@ -515,13 +515,18 @@ func runPDF(c *fw.Ctx, dir string, i int) {
 	if !c.Want(id) {
 		return
 	}
-	d := genDoc(c.Rand("pdf", i), genOpts{})
+	d := genDoc(c.Rand("pdf", i), genOpts{NumericRun: i%7 == 3})
 	if i%5 == 4 && d.NPages >= 2 {
 		// the file carries one more page, which cannot be extracted, somewhere before
 		// the last page: requests name the readable pages only
 		d.Ghost = 1 + c.Rand("pdf", i, "ghost").Intn(d.NPages)
 	}
 	reqs := genRequests(c.Rand("pdf", i, "req"), d, 5)
+	if i%7 == 3 {
+		// number-only paragraphs regroup when the running lines go: the page model
+		// and the chunk-facing renderings are asked for on these documents
+		reqs = append(reqs, request{Mode: "H", API: "Document", SelHow: "mode-first"}, request{Mode: "HF", API: "Document", SelHow: "pages-first"}, request{Mode: "HF", API: "Markdown", SelHow: "mode-first"})
+	}
 	runDoc(c, dir, id, fmt.Sprintf("d%06d.pdf", i), d, func() *rand.Rand { return c.Rand("pdf", i, "render") }, reqs)
 }
 
@@ -566,6 +571,41 @@ func runWitness(c *fw.Ctx, dir string) {
 		reqs2 := []request{{Sel: []int{1}, SelHow: "mode-first", Mode: "H", API: "Text", TM: "join"}}
 		runDoc(c, dir, "witness:scramble", "witness-scramble.pdf", &d2, func() *rand.Rand { return rand.New(rand.NewSource(1)) }, reqs2)
 	}
+}
+
+// runNumberOnlyWitness: the shape of the defect repaired by d4b4b34 (found by the
+// thorough tier, replay pdf:9384 seed 1). On page 2 two body lines are bare
+// numbers; with the running header gone they become paragraphs of their own and
+// list detection takes them for markers of a numbered list. The page model has
+// to keep them as text in every rendering.
+func runNumberOnlyWitness(c *fw.Ctx, dir string) {
+	id := "witness:number-only-list"
+	if !c.Want(id) {
+		return
+	}
+	d := &docSpec{NPages: 2, W: []float64{612, 612}, H: []float64{1008, 1008}, Features: map[string]bool{"witness": true, "body.numeric-run": true}, Total: 2, Ghost: 2}
+	hdr := "qwinzaaaa summary summary 2023"
+	for p := 0; p < 2; p++ {
+		d.Units = append(d.Units,
+			unit{Page: p, Role: "hdr-run", Band: bandTop, X: 72, Y: 950, Size: 10, Text: hdr, Series: "hdrA"},
+			unit{Page: p, Role: "ftr-run", Band: bandBottom, X: 72, Y: 38, Size: 8, Text: "\xa71472", Series: "ftrA"},
+			unit{Page: p, Role: "ftr-run", Band: bandBottom, X: 505.3, Y: 38, Size: 8, Text: "qwinzaaab", Series: "ftrB"})
+	}
+	d.Units = append(d.Units,
+		unit{Page: 1, Role: "margin-unique", Band: bandTop, X: 264.2, Y: 964, Size: 8, Text: "qwinzaaag island winter"},
+		unit{Page: 1, Role: "margin-unique", Band: bandBottom, X: 248.7, Y: 52, Size: 9, Text: "qwinzaaah summary harbour"},
+		unit{Page: 0, Role: "body", Band: bandBody, X: 72, Y: 843, Size: 11, Text: "market island qwinzaaac window signal"},
+		unit{Page: 0, Role: "body", Band: bandBody, X: 72, Y: 817, Size: 11, Text: "qwinzaaad figure market river method"},
+		unit{Page: 0, Role: "body", Band: bandBody, X: 72, Y: 791, Size: 11, Text: "qwinzaaai meadow stone summary window window"},
+		unit{Page: 0, Role: "body", Band: bandBody, X: 72, Y: 765, Size: 11, Text: "qwinzaaaj island winter stone"},
+		unit{Page: 0, Role: "body-numeric", Band: bandBody, X: 72, Y: 739, Size: 11, Text: "1520"},
+		unit{Page: 0, Role: "body", Band: bandBody, X: 72, Y: 713, Size: 11, Text: "qwinzaaak method annual candle candle"},
+		unit{Page: 1, Role: "body-numeric", Band: bandBody, X: 72, Y: 897, Size: 11, Text: "1525"},
+		unit{Page: 1, Role: "body-numeric", Band: bandBody, X: 72, Y: 504, Size: 11, Text: "1561"},
+		unit{Page: 1, Role: "body", Band: bandBody, X: 72, Y: 100, Size: 11, Text: "qwinzaaae annual island garden"})
+	classify(d)
+	reqs := []request{{SelHow: "pages-first", Mode: "H", API: "Document"}, {SelHow: "mode-first", Mode: "HF", API: "Document"}, {Sel: []int{2}, SelHow: "mode-first", Mode: "H", API: "Document"}, {SelHow: "mode-first", Mode: "H", API: "Markdown"}}
+	runDoc(c, dir, id, "witness-number-only.pdf", d, func() *rand.Rand { return rand.New(rand.NewSource(1)) }, reqs)
 }
 
 // runDoc evaluates one document: the direct detector and the given facade requests.
@@ -673,6 +713,7 @@ func Run(c *fw.Ctx) {
 	n := c.N(2500, 40000)
 	c.Parallel(n, func(i int) { runPDF(c, dir, i) })
 	runWitness(c, dir)
+	runNumberOnlyWitness(c, dir)
 	runOffice(c, dir)
 	c.Count("facade_views_on_a_pre_used_shared_reader", sharedReaderViews.Load())
 
